@@ -109,7 +109,7 @@ logging.disable(logging.CRITICAL)
 sys.path.insert(0, sys.argv[2])
 from vharness import seams; seams.setup()
 from vharness.identity_common import identities
-print(json.dumps(identities(open(sys.argv[1]).read()), sort_keys=True))
+print(json.dumps(identities(open(sys.argv[1]).read()), sort_keys=True, default=str))
 """
 
 
@@ -127,7 +127,7 @@ def fresh_process_checks(run: core.Run, texts: List[str], n_env: int) -> None:
             if near != text:
                 identities(near)
                 run.extra["near_miss_histories"] = run.extra.get("near_miss_histories", 0) + 1
-            ref = json.loads(json.dumps(identities(text), sort_keys=True))
+            ref = json.loads(json.dumps(identities(text), sort_keys=True, default=str))
             for ei, env in enumerate(envs):
                 cwd = tmp / f"cwd{ei}"
                 cwd.mkdir(exist_ok=True)
@@ -206,6 +206,22 @@ def check(tier: str) -> int:
     if gen is None:
         raise core.MachineryError("vacuity: no configuration with string-specified context processors among the edges")
     seeds_txt.append(render(gen))
+    # ... and one whose sweep values are what YAML yields for unquoted timestamps WITHOUT a UTC offset and for a date:
+    # whatever identity such values get, it is the same under every host time zone
+    seeds_txt.append("""extensions: [semantiva-examples, verif_ext]
+pipeline:
+  nodes:
+    - processor: FloatValueDataSource
+      derive:
+        parameter_sweep:
+          parameters: {value: "1.0 if t else 2.0"}
+          variables: {t: {values: [2026-01-01 12:00:00, 2026-01-02 00:30:00, 2026-03-01]}}
+          mode: combinatorial
+          broadcast: false
+          collection: FloatDataCollection
+    - processor: FloatMultiplyOperation
+      parameters: {factor: 2.0}
+""")
     fresh_process_checks(run, seeds_txt, 2 if tier == "quick" else 4)
     run.traces_validated = run.evaluations
     run.nontrivial = acts.get("PermuteSubKeys", 0) + acts.get("CommuteExpr", 0) + acts.get("Respell", 0)
